@@ -4,6 +4,8 @@ import (
 	"bytes"
 	"fmt"
 	"math/rand"
+	"regexp"
+	"strconv"
 	"strings"
 	"time"
 
@@ -34,20 +36,21 @@ type encoded struct {
 
 // pkgRun is the state of the property loops over one package.
 type pkgRun struct {
-	ctxClass string // class attached to failures reported while it is set
-	eng      *engine
-	sc       *schemaCase
-	pkg      *pkgbuild.Package
-	drv      *session.Session
-	mdl      *session.Session // nil: no model
-	rng      *rand.Rand
-	stats    map[string]*PropStats
-	pool     []encoded
-	deadline time.Time
-	envLines []string
-	dead     bool // the driver or the model cannot be restarted
-	timeouts int  // driver timeouts so far (C07 stops drawing wild corruptions after two)
-	bad      int  // driver crashes and timeouts so far (C07 slows down after maxBad)
+	ctxClass  string // class attached to failures reported while it is set
+	longRound bool   // the current value carries a planted long string
+	eng       *engine
+	sc        *schemaCase
+	pkg       *pkgbuild.Package
+	drv       *session.Session
+	mdl       *session.Session // nil: no model
+	rng       *rand.Rand
+	stats     map[string]*PropStats
+	pool      []encoded
+	deadline  time.Time
+	envLines  []string
+	dead      bool // the driver or the model cannot be restarted
+	timeouts  int  // driver timeouts so far (C07 stops drawing wild corruptions after two)
+	bad       int  // driver crashes and timeouts so far (C07 slows down after maxBad)
 }
 
 func (r *pkgRun) on(prop string) bool { return r.eng.props[prop] }
@@ -104,7 +107,7 @@ func (r *pkgRun) fail(prop, kind string, di int, op, expected, observed, model, 
 		Class: class, DefNames: names,
 		Property: prop, Kind: kind, Package: r.pkg.ID, Schema: r.sc.text, Options: r.pkg.Options,
 		Def: r.sc.env.Defs[di].Name, DefIdx: di, Env: r.envLines,
-		Op: session.Abbrev(op, 60000), Expected: session.Abbrev(expected, 2000), Observed: session.Abbrev(observed, 2000),
+		Op: session.Abbrev(op, 400000), Expected: session.Abbrev(expected, 2000), Observed: session.Abbrev(observed, 2000),
 		Model: session.Abbrev(model, 2000), Note: note,
 	})
 }
@@ -116,6 +119,23 @@ func (r *pkgRun) real(line string) session.Resp {
 	if err != nil {
 		r.dead = true
 		r.eng.note("driver of %s cannot be restarted: %v", r.pkg.ID, err)
+		return resp
+	}
+	if resp.Class == "crash" && smallBlockOOM(resp.Raw) {
+		// the driver is a long-lived process with a memory cap. When it dies for want of a SMALL block (this operation
+		// did not ask for much; the heap was full of what earlier operations left behind, and those are measured and
+		// reported one by one by the allocation checks), the operation is attributed the crash only if it crashes a
+		// fresh driver too. A request for a large block is the operation's own doing and is never retried.
+		again, err2 := r.drv.Do(line)
+		if err2 != nil {
+			r.dead = true
+			r.eng.note("driver of %s cannot be restarted: %v", r.pkg.ID, err2)
+			return resp
+		}
+		if again.Class != "crash" {
+			r.eng.note("driver of %s: crash on `%s` (%s) did not recur in a fresh process", r.pkg.ID, session.Abbrev(line, 80), resp.Short())
+			return again
+		}
 	}
 	return resp
 }
@@ -236,6 +256,15 @@ func (r *pkgRun) run(rounds int) {
 func (r *pkgRun) evalValue(di, round int) {
 	env := r.sc.env
 	raw := val.RandomRecord(r.valueRng(di, round), env, di, genConfigFor(round))
+	// two rounds plant one long string (beyond 4 KiB, beyond 64 KiB) as the last string of the value: a decoder may
+	// read long strings by another route, and every truncation / reader failure inside them must still surface
+	r.longRound = false
+	if n := map[int]int{(1 + di%2): 4097 + di%5, (2 - di%2): 65537 + di%7}[round]; n > 0 {
+		if planted, ok := val.PlantLongString(raw, n); ok {
+			raw, r.longRound = planted, true
+			r.st("C06").dist("long-string", fmt.Sprint(n/1000, "k"))
+		}
+	}
 	// V is what the wire can carry: deprecated fields are never written. The driver gets raw
 	// (vs), the model and the expectations use V (ms).
 	V := val.StripDeprecated(env, schema.Ty{K: schema.TyRef, Ref: di}, raw)
@@ -248,14 +277,23 @@ func (r *pkgRun) evalValue(di, round int) {
 	opMarshal := fmt.Sprintf("marshal %d %s", di, vs)
 	rm := r.real(opMarshal)
 	if r.badReal("C02", di, opMarshal, rm, false) {
+		// no bytes at all for a well-typed value: there is no round trip (C01) and no conformant encoding (C03) either
+		r.badReal("C01", di, opMarshal, rm, false, "MarshalBebop of a well-typed value does not return")
+		r.badReal("C03", di, opMarshal, rm, false, "MarshalBebop of a well-typed value does not return")
 		return
 	}
 	if rm.Class != "ok" || len(rm.Fields) != 1 {
-		r.fail("C02", "oracle", di, opMarshal, "ok <hex>", rm.Short(), "", "")
+		for _, p := range []string{"C02", "C01", "C03"} {
+			r.fail(p, "oracle", di, opMarshal, "ok <hex>", rm.Short(), "", "MarshalBebop of a well-typed value fails")
+		}
 		return
 	}
 	hexB := rm.Fields[0]
 	B, _ := val.Unhex(hexB)
+	if r.longRound {
+		r.longChecks(di, vs, want, multi, B, hexB, bucket)
+		return
+	}
 
 	var mHex string
 	mSize := -1
@@ -542,7 +580,7 @@ func (r *pkgRun) evalValue(di, round int) {
 	if r.on("C05") {
 		r.c05(di, round, V, B, hexB, want, bucket)
 	}
-	heavy := round%5 == 0 && len(B) <= r.eng.maxHeavyLen
+	heavy := (round%5 == 0 && len(B) <= r.eng.maxHeavyLen) || r.longRound
 	// ---- C06 ----
 	if r.on("C06") && heavy {
 		r.c06(di, B, hexB, bucket)
@@ -560,6 +598,40 @@ func (r *pkgRun) evalValue(di, round int) {
 		r.pool = append(r.pool, encoded{di, B, want})
 	} else {
 		r.pool[r.rng.Intn(len(r.pool))] = encoded{di, B, want}
+	}
+}
+
+// longChecks is what a value with a planted long string goes through: the plain round trip, every kind of
+// truncation and every kind of reader / writer failure, on the real code only (operations of this size are too
+// slow to mirror in the model one by one; the model is compared on the ordinary rounds).
+func (r *pkgRun) longChecks(di int, vs, want string, multi bool, B []byte, hexB, bucket string) {
+	if r.on("C01") {
+		outcome := "ok"
+		for _, op := range []string{fmt.Sprintf("unmarshal %d %s", di, hexB), fmt.Sprintf("decode %d all %s", di, hexB), fmt.Sprintf("decode %d one %s", di, hexB)} {
+			rd := r.real(op)
+			if r.badReal("C01", di, op, rd, false) {
+				outcome = "fail"
+				continue
+			}
+			var got val.Val
+			var err error
+			if strings.HasPrefix(op, "decode") {
+				got, _, err = rd.ValConsumed()
+			} else {
+				got, err = rd.Val()
+			}
+			if err != nil || got.CanonString() != want {
+				outcome = "fail"
+				r.fail("C01", "oracle", di, op, "ok "+session.Abbrev(want, 300), rd.Short(), "", "a value with a long string does not survive the round trip")
+			}
+		}
+		r.eval("C01", di, bucket, outcome, vs)
+	}
+	if r.on("C06") {
+		r.c06(di, B, hexB, bucket)
+	}
+	if r.on("C08") {
+		r.c08(di, vs, want, multi, B, hexB, -1, bucket)
 	}
 }
 
@@ -689,13 +761,17 @@ func (r *pkgRun) cutPoints(n int) []int {
 			out = append(out, k)
 		}
 	}
-	for k := 0; k < 64; k++ {
+	head, random := 64, 64
+	if r.longRound {
+		head, random = 6, 10 // the operations carry the whole encoding: fewer of them
+	}
+	for k := 0; k < head; k++ {
 		add(k)
 	}
 	for k := n - 16; k < n; k++ {
 		add(k)
 	}
-	for i := 0; i < 64; i++ {
+	for i := 0; i < random; i++ {
 		add(r.rng.Intn(n))
 	}
 	return out
@@ -720,7 +796,9 @@ func (r *pkgRun) c06(di int, B []byte, hexB, bucket string) {
 			outcome = ru.Class
 		}
 		mop := fmt.Sprintf("dec 1 %d %s", di, cut)
-		if md, ok := r.model("C06", di, mop); ok && md.Class != ru.Class {
+		if r.longRound {
+			r.st("C06").ModelSkipped += 2
+		} else if md, ok := r.model("C06", di, mop); ok && md.Class != ru.Class {
 			r.fail("C06", "mismatch", di, op, md.Class, ru.Short(), md.Short(), fmt.Sprintf("UnmarshalBebop of a truncation at %d of %s", k, hexB))
 		}
 		op2 := fmt.Sprintf("decode %d all %s", di, cut)
@@ -735,7 +813,8 @@ func (r *pkgRun) c06(di int, B []byte, hexB, bucket string) {
 			outcome = rd.Class
 		}
 		mop2 := fmt.Sprintf("decs %d %s", di, cut)
-		if md, ok := r.model("C06", di, mop2); ok && md.Class != rd.Class {
+		if r.longRound {
+		} else if md, ok := r.model("C06", di, mop2); ok && md.Class != rd.Class {
 			r.fail("C06", "mismatch", di, op2, md.Class, rd.Short(), md.Short(), fmt.Sprintf("DecodeBebop of a truncation at %d of %s", k, hexB))
 		}
 		r.eval("C06", di, bucket, outcome, cut)
@@ -830,7 +909,7 @@ func (r *pkgRun) c08(di int, vs, want string, multi bool, B []byte, hexB string,
 		encodeCalls, _ = re.Int(1)
 		if !multi && re.Fields[0] != hexB {
 			r.fail("C08", "oracle", di, opEnc, hexB, re.Fields[0], "", "clean encode is not the marshalled bytes")
-		} else if multi {
+		} else if multi && !r.longRound {
 			if p, _ := r.conformant("C08", di, re.Fields[0], want); p != "" {
 				r.fail("C08", "mismatch", di, opEnc, "a conformant encoding", re.Fields[0], p, "")
 			}
@@ -868,10 +947,25 @@ func (r *pkgRun) c08(di int, vs, want string, multi bool, B []byte, hexB string,
 			r.eval("C08", di, bucket, "decode-"+mode+"-"+rdE.Class, hexB, fmt.Sprint(mode, k))
 		}
 		mop := fmt.Sprintf("decsfail %d %d %s", di, k, hexB)
-		if md, ok := r.model("C08", di, mop); ok && md.Class != rd.Class {
+		if r.longRound {
+			r.st("C08").ModelSkipped++
+		} else if md, ok := r.model("C08", di, mop); ok && md.Class != rd.Class {
 			r.fail("C08", "mismatch", di, op, md.Class, rd.Short(), md.Short(), "")
 		}
 		r.eval("C08", di, bucket, "decodefail-"+outcome, hexB, fmt.Sprint("r", k))
 	}
 	r.sample("C08", "%s: V=%s: %d Write calls, %d bytes; every failing Write / Read position must surface an error", r.sc.env.Defs[di].Name, vs, encodeCalls, len(B))
+}
+
+var oomBlockRe = regexp.MustCompile(`cannot_allocate_(\d+)-byte_block`)
+
+// smallBlockOOM: the runtime's out-of-memory report names the block it could not get; below 32 MiB the request
+// itself is unremarkable.
+func smallBlockOOM(raw string) bool {
+	m := oomBlockRe.FindStringSubmatch(raw)
+	if m == nil {
+		return false
+	}
+	n, err := strconv.ParseInt(m[1], 10, 64)
+	return err == nil && n < 32<<20
 }
